@@ -2,19 +2,38 @@
 C08, incentive clauses over HISTORIES — the uptime incentive accumulators along arbitrary message lists of the full model
 (`CLIncP.IOp`: create / withdraw / add / transfer / swap / collect spread rewards / create incentive record / advance block time /
 sync / collect incentives; failed messages are no-ops), by induction over the list (unbounded), mirroring Props/C08 for spread
-rewards.  Model: `Model/CLInc.lean` (unchanged).  Helper lemmas: Proofs/CLIncHist1 … .
+rewards.  Model: `Model/CLInc.lean` (unchanged, no ghost state added: the trace-like quantities below — `histI`, `evolveRec`,
+`slotOf` — are NEW spec-level definitions computed from the unchanged model functions).  Helper lemmas: Proofs/CLIncHist1 … 25.
 
 PROVED here (all histories from an empty pool with any tick spacing > 0, admissible spread factor, any scaling factors > 0):
- * `reachable_inv_inc`: every reachable state satisfies the incentive invariant `IncInv` (on top of C07's pool invariant and
+ 1. `reachable_inv_inc`: every reachable state satisfies the incentive invariant `IncInv` (on top of C07's pool invariant and
    C08's accumulator invariant): six accumulators; in each, every live position has a record holding exactly its liquidity, no
    record for an id never handed out, total shares = the spread-reward accumulator's total shares (= Σ liquidity,
    `uptime_total_shares_eq_sum`); both boundary ticks of every live position carry six uptime trackers, trackers only on
-   initialised ticks; all DecCoins in sdk normal form; incentive records have rate ≥ 0 and remaining ≥ 0; every live position has
-   a join time, join times only for handed-out ids.
- * `uptime_growth_inside_history`: for a position alive (under the same id) at both ends of a history, per uptime and denom, the
+   initialised ticks (`uptime_trackers_on_initialised_ticks`); all DecCoins in sdk normal form; incentive records have rate ≥ 0 and
+   remaining ≥ 0 (> 0: `reachable_records_positive`); every live position has a join time, join times only for handed-out ids.
+   Clocks (`reachable_time_inv`): `LastLiquidityUpdate ≤ now`, join times ≤ now — for histories whose time advances are ≥ 0
+   (`time_inv_needs_monotone_time_witness`: false otherwise).
+ 2. `uptime_growth_inside_history`: for a position alive (under the same id) at both ends of a history, per uptime and denom, the
    growth inside its range at the end = at the start + Σ over the messages in between of the growth of that accumulator's value
    (emission on sync + re-deposited forfeits, never negative: `history_events_nonneg`) IF the current tick before the message
-   was inside [lower, upper) — the incentive analogue of `C08.growth_inside_history` (laws shared through `insideI`).
+   was inside [lower, upper) — the incentive analogue of `C08.growth_inside_history` (laws shared through `insideI`); hence
+   monotone, and constant for a range never entered.
+ 3a. claims over histories: `incentive_claim_split` (claimable = Σ accumulators, collected iff the age has met the uptime, else
+   forfeited), `join_time_fixed`, `unmet_uptime_never_collected_history` (the split by age against the join time set at creation,
+   along ANY history), `same_block_claim_collects_nothing`, `twins_equal_incentives`, `twins_created_together_incentives`,
+   `twins_created_together_earn_equal`, `create_gives_fresh_uptime_records`, `never_in_range_earns_no_incentives`.
+ 3b. the SUM bound: `incentive_sum_invariant` (Σ exact entitlements + Σ records' remaining × factor ≤ balance × 10¹⁸ × factor + 3·10¹⁸ per
+   message), `total_claimable_incentives_le_balance`, `incentive_solvency` (Σ claimable ≤ incentive address balance for histories
+   with 3·(#messages + #positions) < factor ≥ 10¹⁸): the clause of C01 for incentives.
+ 4. emission accounting: `sync_elapsed_exact`, `record_emission_exact`, `records_after_message`, `emission_accounting` (remaining
+   after any history = max(initial − Σ slots, 0), emitted = min(Σ slots, initial), record present while positive),
+   `emission_slot_is_rate_times_elapsed` (slot = ⌊ns·10⁹·rate/10¹⁸⌋: rate × elapsed, rounded down by < 10⁻¹⁸ token, only for
+   successful syncing messages with ≥ 1 unit of liquidity after the record's start), `idle_time_emits_nothing`,
+   `slot_zero_or_full_partial` (the converse up to the three silent Dec-overflow skips of the code).
+NOT PROVED: the dust bound in the other direction (how much of the balance can stay unclaimable: forfeits of `collectIncentives` stay in
+the address by design); second incentive claim = 0 (follows the same way as for spread rewards, not stated); the link between the
+ghost "total paid out" and the balance is by construction of `bal` (compared with the bank balance by the engine after every op).
 -/
 import OsmoVerif.Proofs.CLIncHist25
 import OsmoVerif.Props.C08Inc
